@@ -63,6 +63,7 @@ class Cfg:
         self.c_path = None          # ... and the server for the client
         self.followups = []         # requests submitted when the first one completes (IOCB path): [(how, behaviour, req_size, rsp_size)],
                                     # how = 'deferred' (through core.deferred from the callback) | 'direct' (inside the callback)
+        self.client_dcc = None      # the requesting device's own DeviceCommunicationControl state ('disable' | 'disableInitiation')
         self.background = []        # delays of unrelated one-shot timers installed between the first request and the further ones
         self.extra = []             # further requests submitted at the same instant: [(behaviour, service, req_size, rsp_size)]
         self.__dict__.update(kw)
@@ -125,6 +126,8 @@ def run_scenario(cfg, plan=None, extra_after=None, max_steps=400000):
             req = client.wp_request(2, cfg.token)
         res.submit_error = None
         res.first_refused = False
+        if cfg.client_dcc:
+            client.smap.dccEnableDisable = cfg.client_dcc
         try:
             res.iocb = client.send(req, cfg.token)
         except Exception as err:
